@@ -174,7 +174,10 @@ def random_case(r):
     data = random_data(r, kws)
     if r.random() < 0.1:
         data = r.choice(kws)
-    return list(dict.fromkeys(kws)), data
+    kws = list(dict.fromkeys(kws))
+    if r.random() < 0.5:
+        kws.sort()  # the order registries use: a keyword directly before the longer keywords it is a prefix of
+    return kws, data
 
 
 def judge_rand(kws, data, ctx, case):
@@ -208,7 +211,7 @@ def make_kw_dir(r, d):
     for i in range(r.randint(1, 5)):
         sub = r.choice(["", "", "sub", "sub/deeper"])
         os.makedirs(os.path.join(d, sub), exist_ok=True)
-        name = r.choice(["api.x", "list", "a.b.c", "vba.name", "K"]) + str(i)
+        name = r.choice(["api.x", "list", "a.b.c", "vba.name", "K", "ключ", "naïve.list", "中文"]) + str(i)
         kws = [k for k in (rand_kw(r) for _ in range(r.randint(0, 4)))]
         kws = [k for k in kws if k.strip(b"\x0b\x0c\x1c\x1d\x1e\x85") == k and not any(c in k for c in b"\x0b\x0c\x1c\x1d\x1e\x85")]
         if kws and r.random() < 0.3:
